@@ -389,6 +389,27 @@ impl Token<'_> {
   }
 }
 
+/// Writes a text literal with the characters that cannot appear unescaped
+/// between the quotes (`"`, `\\` and control characters) escaped, so that it
+/// reads back as the same text
+pub(crate) fn write_text_literal(f: &mut fmt::Formatter, text: &str) -> fmt::Result {
+  f.write_str("\"")?;
+  for c in text.chars() {
+    match c {
+      '"' => f.write_str("\\\"")?,
+      '\\' => f.write_str("\\\\")?,
+      '\n' => f.write_str("\\n")?,
+      '\r' => f.write_str("\\r")?,
+      '\t' => f.write_str("\\t")?,
+      '\u{8}' => f.write_str("\\b")?,
+      '\u{c}' => f.write_str("\\f")?,
+      c if (c as u32) < 0x20 || c as u32 == 0x7f => write!(f, "\\u{:04x}", c as u32)?,
+      c => write!(f, "{}", c)?,
+    }
+  }
+  f.write_str("\"")
+}
+
 /// Writes a floating-point literal so that it reads back as a floating-point
 /// literal: an integral value keeps a fraction (`1.0`, not `1`)
 pub(crate) fn write_float(f: &mut fmt::Formatter, value: f64) -> fmt::Result {
@@ -488,7 +509,7 @@ pub enum Numeric {
 impl fmt::Display for Value<'_> {
   fn fmt(&self, f: &mut fmt::Formatter) -> fmt::Result {
     match self {
-      Value::TEXT(text) => write!(f, "\"{}\"", text),
+      Value::TEXT(text) => write_text_literal(f, text),
       Value::INT(i) => write!(f, "{}", i),
       Value::UINT(ui) => write!(f, "{}", ui),
       Value::FLOAT(float) => write_float(f, *float),
